@@ -302,6 +302,7 @@ func runC18(c *Ctx) {
 	}
 	ruleTestamentBuckets(c, r5)
 	ruleShutdownFlag(c, r5) // a kill is never mistaken for realm shutdown (which would skip on_leave, testaments and removal)
+	ruleDictWrites(c, r5) // the kill-all mark is written into a GOODBYE private to that kill
 	c.R.Floor(r5, 17)
 }
 
